@@ -335,7 +335,7 @@ func c10r3(c *Ctx, id string) {
 			}
 		}
 	}
-	c.Floor(id, 8)
+	c.Floor(id, 6)
 }
 
 func c10r4(c *Ctx, id string) {
